@@ -319,6 +319,7 @@ func init() {
 			checkC12(c, budget(c.Tier, 400, 40000))
 			checkC12DefaultChanged(c, budget(c.Tier, 60, 2000))
 			checkC12AddOption(c, budget(c.Tier, 60, 2000))
+			checkC12IndirectCollections(c, budget(c.Tier, 80, 3000))
 			runMixedCases(c, budget(c.Tier, 150, 15000), defaultProfile, []string{"parse", "iniparse", "iniwrite"}, 3, func(cr *CaseResult) { oracleNoPanic(c, cr) })
 		}}
 	props["C14"] = propRun{
